@@ -347,6 +347,73 @@ def cluster_worker(part, natoms):
     part.outcome(("cluster", natoms > 4096))
 
 
+def pairs_worker(part, z1s):
+    """
+    all 103 x 103 ORDERED element pairs: atom Z1 at the origin, atom Z2 at 1.4 A - the molecule's density is the sum of the two tabulated
+    atoms, and Z1's share against Z2 is the ratio (which row of the table is bound to which atom is decided per molecule, not per element)
+    """
+    from chmpy.interpolate.density import PromoleculeDensity, StockholderWeight
+
+    sites = np.array([[0.0, 0.0, 0.0], [1.4, 0.0, 0.0]])
+    pts = np.array([[0.7, 0.6, 0.0], [-0.5, 0.3, 0.2], [1.9, -0.4, 0.3], [0.7, 2.5, 1.0], [-3.0, 0.0, 0.5], [4.5, 1.0, -1.0]])
+    p32 = pts.astype(np.float32).astype(np.float64)
+    s32 = sites.astype(np.float32).astype(np.float64)
+    single = {z: interp.promolecule_rho(np.array([z]), s32[:1], p32) for z in range(1, 104)}
+    second = {z: interp.promolecule_rho(np.array([z]), s32[1:], p32) for z in range(1, 104)}
+    for z1 in z1s:
+        for z2 in range(1, 104):
+            part.ev()
+            part.tr(2)
+            case = {"kind": "pair", "z1": int(z1), "z2": int(z2)}
+            zs = np.array([z1, z2])
+            try:
+                got = np.asarray(PromoleculeDensity((zs, sites)).rho(pts), dtype=np.float64)
+                w = np.asarray(StockholderWeight.from_arrays(zs[:1], sites[:1], zs[1:], sites[1:]).weights(pts), dtype=np.float64)
+            except Exception as e:
+                part.fail("pair:raise", "the pair Z=%d, Z=%d raised %r" % (z1, z2, e), case)
+                continue
+            want = single[z1][0] + second[z2][0]
+            alt = single[z1][1] + second[z2][1]
+            e = relerr(got, want, alt)
+            part.dev("pair_sum_rel", e)
+            if not (e <= REL):
+                part.fail("pair:sum-of-atoms", "density of the pair Z=%d (origin), Z=%d (1.4 A) deviates from the sum of the two tabulated atoms (rel. err %.3g)" % (z1, z2, e), case)
+                continue
+            wref = single[z1][0] / (single[z1][0] + second[z2][0])
+            dw = float(np.abs(w - wref).max())
+            part.dev("pair_weight_abs", dw)
+            if not (dw <= 2e-4):
+                part.fail("pair:weight", "stockholder weight of Z=%d against Z=%d deviates by %.3g from interior/(interior+exterior)" % (z1, z2, dw), case)
+        part.nstates(1)
+        part.outcome(("pair", int(z1) % 5))
+
+
+def all_elements_worker(part, order):
+    """one molecule holding all 103 elements (every row of the table bound at once), in three atom orders"""
+    from chmpy.interpolate.density import PromoleculeDensity
+
+    zs = np.arange(1, 104)
+    g = np.arange(5) * 2.1
+    sites = np.array(list(itertools.product(g, g, g)))[:103]
+    perm = {"ascending": np.arange(103), "descending": np.arange(103)[::-1], "scrambled": (np.arange(103) * 37) % 103}[order]
+    pts = sites[::9] + np.array([0.6, 0.5, 0.4])
+    case = {"kind": "all-elements", "order": order}
+    part.ev()
+    part.tr()
+    part.nstates(1)
+    try:
+        got = np.asarray(PromoleculeDensity((zs[perm], sites[perm])).rho(pts), dtype=np.float64)
+    except Exception as e:
+        part.fail("all-elements:raise", "a molecule of all 103 elements raised %r" % e, case)
+        return
+    want, alt = interp.promolecule_rho(zs, sites.astype(np.float32).astype(np.float64), pts.astype(np.float32).astype(np.float64))
+    e = relerr(got, want, alt)
+    part.dev("all_elements_rel", e)
+    if not (e <= REL):
+        part.fail("all-elements:sum-of-atoms", "density of a molecule holding all 103 elements (%s order) deviates from the sum of tabulated atoms (rel. err %.3g)" % (order, e), case)
+    part.outcome(("all-elements", order))
+
+
 def empty_exterior_worker(part, zi):
     """an isolated molecule: NO exterior atoms at all (shape (0,3)); the weight is interior / (interior + background), i.e. 1 without
     background and below 1 with it - through the constructor and through from_arrays"""
@@ -428,6 +495,12 @@ def worker(part, job, seed):
     if job[0] == "empty-exterior":
         empty_exterior_worker(part, job[1])
         return
+    if job[0] == "pairs":
+        pairs_worker(part, job[1])
+        return
+    if job[0] == "all-elements":
+        all_elements_worker(part, job[1])
+        return
     if job[0] == "cluster":
         cluster_worker(part, job[1])
         return
@@ -481,6 +554,8 @@ def run(ctx):
     jobs += far
     jobs.append(("arghist", None))
     jobs += [("empty-exterior", zi) for zi in ((8, 1, 1), (6,), (92, 17))]
+    jobs += [("pairs", list(c)) for c in chunked(range(1, 104), 4)]
+    jobs += [("all-elements", o) for o in ("ascending", "descending", "scrambled")]
     jobs += [("cluster", n) for n in ((255, 256, 257, 1000, 4095, 4096, 4097, 8193) if not ctx.thorough else (255, 256, 257, 1000, 4095, 4096, 4097, 8193, 16385, 32769, 65537))]
     bs = BATCH_SIZES if ctx.thorough else tuple(n for n in BATCH_SIZES if n <= 70001)
     jobs += [("batch", bs[i::4]) for i in range(4)]
@@ -491,7 +566,7 @@ def run(ctx):
                 "bipartitions (additivity; weights with 3 backgrounds; complements), rigid motions (23 octahedral + 3 generic rotations + 3 translations + 1 "
                 "combined: all of them on every %dth configuration, 3 on the others); distinct = elements and configurations"
                 % (kmax, ELEMENTS, len(configs), "", 5 if ctx.thorough else 20))
-    ctx.bounds = {"configurations": len(configs), "max_atoms": kmax, "rel_tol": REL, "batch_sizes": list(bs), "extended_clusters": "%d clusters with exterior atoms 3..30 A from the interior, points on shells round every atom" % len(far)}
+    ctx.bounds = {"configurations": len(configs), "max_atoms": kmax, "rel_tol": REL, "batch_sizes": list(bs), "element_pairs": "all 103 x 103 ordered pairs (density and share) + one molecule of all 103 elements in 3 orders", "extended_clusters": "%d clusters with exterior atoms 3..30 A from the interior, points on shells round every atom" % len(far)}
     ctx.assumptions = ["the reference is evaluated at the float32-rounded coordinates the kernel receives", "beyond the table end either fill value (last tabulated value or 0) is accepted",
                        "points within 0.3 A of a nucleus excluded, as the property says", "compiled kernel exercised as built; Python-side row binding, unit handling and wrappers are live"]
     ctx.sample({"a_configuration": {"sites": [0, 4], "zs": [8, 1]}, "n_points": int(len(eval_points(SITES[[0, 4]])))})
@@ -508,6 +583,10 @@ def replay(ctx, case):
         argument_history_worker(ctx, None)
     elif case["kind"] == "cluster":
         cluster_worker(ctx, case["natoms"])
+    elif case["kind"] == "pair":
+        pairs_worker(ctx, [case["z1"]])
+    elif case["kind"] == "all-elements":
+        all_elements_worker(ctx, case["order"])
     elif case["kind"] == "far":
         far_worker(ctx, (tuple(case["zi"]), tuple(case["ze"]), tuple(case["dists"])))
     elif case["kind"] == "batch":
